@@ -119,12 +119,23 @@ func (c *Channel) withdrawSubChannel(ctx context.Context, sub *Channel) error {
 	return errors.WithMessage(err, "update parent channel")
 }
 
-func (c *Channel) registerSubChannelFunding(id channel.ID, alloc []channel.Bal) {
+// registerSubChannelFunding registers the interceptor for the update that funds
+// sub-channel id with the initial balances bals.
+func (c *Channel) registerSubChannelFunding(id channel.ID, bals channel.Balances) {
 	filter := func(cu ChannelUpdate) bool {
-		expected := *channel.NewSubAlloc(id, alloc, nil)
-		_, containedBefore := c.machine.State().SubAlloc(expected.ID)
+		cur := c.machine.State()
+		expected := *channel.NewSubAlloc(id, bals.Sum(), nil)
+		_, containedBefore := cur.SubAlloc(expected.ID)
 		subAlloc, containedAfter := cu.State.SubAlloc(expected.ID)
-		return !containedBefore && containedAfter && expected.Equal(&subAlloc) == nil
+		if containedBefore || !containedAfter || expected.Equal(&subAlloc) != nil {
+			return false
+		}
+		// Every participant pays exactly its own initial balance of the
+		// sub-channel (AssertGreaterOrEqual also checks the dimensions).
+		if cur.Balances.AssertGreaterOrEqual(bals) != nil {
+			return false
+		}
+		return cur.Balances.Sub(bals).Equal(cu.State.Balances)
 	}
 	ui := newUpdateInterceptor(filter)
 	c.subChannelFundings.Register(id, ui)
